@@ -24,6 +24,10 @@ impl std::convert::From<FmtError> for SerError {
 }
 /// the decimal text `Display` writes for an integer (std; uninterpreted)
 pub uninterp spec fn decimal_text(v: int) -> Seq<char>;
+/// the token `write_plain_or_quoted` writes for `s` (plain or quoted; specified in unit `quoting`)
+pub uninterp spec fn pq_text(quote_all: bool, yaml_12: bool, in_flow: usize, s: Seq<char>) -> Seq<char>;
+spec fn t0_of(ser: &YamlSerializer) -> Seq<char> { ser.out.text() }
+spec fn pq_of(ser: &YamlSerializer, s: Seq<char>) -> Seq<char> { pq_text(ser.quote_all, ser.yaml_12, ser.in_flow, s) }
 /// `n` spaces
 pub open spec fn spaces(n: int) -> Seq<char> { Seq::new(n as nat, |i: int| ' ') }
 /// the word written for None / unit
